@@ -989,6 +989,16 @@ def check_clear_counter(prog, c, child_rel, r):
         return 'scan does not start at len - n'
     if n.kind != 'phi':
         return 'pass counter is not loop-carried'
+    # form B of the counter: n = free.len() (after the pass) - end (the length the pass started with): what the pass pushed
+    loops0 = b.cfg.loops()
+    by_difference = False
+    if n.extra['block'] in loops0:
+        body0 = loops0[n.extra['block']]
+        steps0 = [unover(x) for x, p_ in zip(n.args, n.extra['preds']) if p_ in body0]
+        if steps0 and all(s0.kind == 'bin' and s0.args[0].startswith('Sub') and strip(s0.args[1]).kind == 'call' and strip(s0.args[1]).callee_name() == 'len'
+                          and (vec_field_of(prog, strip(s0.args[1]).args[0]) or ())[-1:] == r['free'][-1:] and strip(s0.args[2]) is hi
+                          and strip(s0.args[1]).point > hi.point for s0 in steps0):
+            by_difference = True
     # n's increments: exactly one per release call, in the same guarded block region
     incs = []
     for v in b._vals:
@@ -996,7 +1006,7 @@ def check_clear_counter(prog, c, child_rel, r):
             x, y = strip(v.args[1]), strip(v.args[2])
             if y.kind == 'const' and y.args[0] == 1 and x.kind == 'phi' and x.extra['local'] == n.extra['local']:
                 incs.append(v)
-    if len(incs) != len(child_rel):
+    if not by_difference and len(incs) != len(child_rel):
         return 'pass counter is incremented %d times for %d releases' % (len(incs), len(child_rel))
     # the counter of the previous pass is the one at the header of the outer loop; each pass starts counting from 0;
     # the passes stop exactly when a pass released nothing
@@ -1007,11 +1017,13 @@ def check_clear_counter(prog, c, child_rel, r):
         if n.extra['block'] != outer_h:
             return 'the scan does not start at len - (releases of the previous pass)'
         inner_phi = [ph for l, ph in b.phis.get(inner_h, {}).items() if l == n.extra['local']]
+        if by_difference:
+            inner_phi = []
         for ph in inner_phi:
             for a, p in zip(ph.args, ph.extra['preds']):
                 if p not in loops[inner_h] and not strip(a).is_const(0):
                     return 'the pass counter is not reset to 0 at the start of a pass (it keeps growing: slots are released again and the passes never end)'
-        if not inner_phi:
+        if not inner_phi and not by_difference:
             return 'the pass counter is not maintained inside the scan'
         from rules.gate import edge_truth
         guard_ok = False
